@@ -253,6 +253,8 @@ class Monitor:
             fi = self.repo.functions.get(q)
             if fi is None or "#" in q:
                 continue
+            if q.startswith(("singleton.", "TrueSingleton.", "_SemiSingleton.")):
+                continue        # registries keyed by argument tuples: compared with a dictionary reference model by the explorer
             if q.startswith(("breadthfirst.", "depthfirst.")) and not q.endswith("_df_preflight_checks"):
                 continue        # their contracts speak about existential ghosts (machine step counts): not evaluable at run time;
                                 # the explorer compares these functions with the canonical machines directly
